@@ -121,6 +121,7 @@ PROPS = {
         "tests": [
             {"name": "TestC09", "quick": 600, "thorough": 60000, "shards_quick": 10},
             {"name": "TestC09Race", "quick": 120, "thorough": 4000, "race": True, "shards_quick": 6},
+            {"name": "TestC09Preempt3", "kind": "plain", "quick": 1, "thorough": 1, "shards_quick": 6, "shards_thorough": 6},
             {"name": "TestC09Exhaustive", "kind": "plain", "quick": 1, "thorough": 1, "tiers": ("thorough",), "shards_thorough": 12},
         ],
     },
